@@ -3,6 +3,7 @@
 pub mod keys;
 pub mod sign;
 pub mod upstream;
+pub mod hier;
 
 use hickory_proto::rr::Name;
 use std::str::FromStr;
